@@ -1,3 +1,4 @@
+import CacheVerif.Proofs.Wrappers
 import CacheVerif.Proofs.ProtoData
 import CacheVerif.Props.C03
 import CacheVerif.Proofs.SlotMapOfHindsight
@@ -66,5 +67,28 @@ theorem C04_content_changes_only_at_commit_or_clear : type_of% (@C03.C03_content
 theorem C04_clear_empties : type_of% (@C03.C03_clear_empties K V _ p) := @C03.C03_clear_empties K V _ p
 
 end lin
+
+/-- **the writing methods of `MapOf`, as printed from `internal/xsync/mapof.go` on every run, are the builtin-map methods
+of their names** (see `C03_methods_are_spec`) -/
+theorem C04_methods_are_spec {K V : Type} [DecidableEq K] [Inhabited V] (m : Spec.AMap K V) (k : K) (v : V) (g : Option V → V × Bool) :
+    ((Proofs.Wrappers.viaSpec m k g Gen.Deep.MapOf_Store v).1 = (Spec.AMap.store m k v).get k) ∧
+    ((Proofs.Wrappers.viaSpec m k g Gen.Deep.MapOf_LoadOrStore v).1 = (Spec.AMap.loadOrStore m k v).1.get k ∧
+      (Proofs.Wrappers.viaSpec m k g Gen.Deep.MapOf_LoadOrStore v).2 = (Spec.AMap.loadOrStore m k v).2) ∧
+    ((Proofs.Wrappers.viaSpec m k g Gen.Deep.MapOf_LoadAndStore v).1 = (Spec.AMap.loadAndStore m k v).1.get k ∧
+      (Proofs.Wrappers.viaSpec m k g Gen.Deep.MapOf_LoadAndStore v).2 = (Spec.AMap.loadAndStore m k v).2) ∧
+    ((Proofs.Wrappers.viaSpec m k g Gen.Deep.MapOf_LoadOrCompute v).1 = (Spec.AMap.loadOrStore m k v).1.get k ∧
+      (Proofs.Wrappers.viaSpec m k g Gen.Deep.MapOf_LoadOrCompute v).2 = (Spec.AMap.loadOrStore m k v).2) ∧
+    ((Proofs.Wrappers.viaSpec m k g Gen.Deep.MapOf_Compute v).1 = (Spec.AMap.compute m k g).1.get k ∧
+      (Proofs.Wrappers.viaSpec m k g Gen.Deep.MapOf_Compute v).2 = (Spec.AMap.compute m k g).2) ∧
+    ((Proofs.Wrappers.viaSpec m k g Gen.Deep.MapOf_LoadAndDelete v).1 = (Spec.AMap.loadAndDelete m k).1.get k ∧
+      (Proofs.Wrappers.viaSpec m k g Gen.Deep.MapOf_LoadAndDelete v).2 = (Spec.AMap.loadAndDelete m k).2) ∧
+    ((Proofs.Wrappers.viaSpec m k g Gen.Deep.MapOf_Delete v).1 = (Spec.AMap.loadAndDelete m k).1.get k) :=
+  ⟨(Proofs.Wrappers.store_spec m k v g _ (Or.inr rfl)).1,
+   ⟨(Proofs.Wrappers.loadOrStore_spec m k v g _ (Or.inr rfl)).1, (Proofs.Wrappers.loadOrStore_spec m k v g _ (Or.inr rfl)).2.1⟩,
+   ⟨(Proofs.Wrappers.loadAndStore_spec m k v g _ (Or.inr rfl)).1, (Proofs.Wrappers.loadAndStore_spec m k v g _ (Or.inr rfl)).2.1⟩,
+   ⟨(Proofs.Wrappers.loadOrCompute_spec m k v g _ (Or.inr rfl)).1, (Proofs.Wrappers.loadOrCompute_spec m k v g _ (Or.inr rfl)).2.1⟩,
+   ⟨(Proofs.Wrappers.compute_spec m k v g _ (Or.inr rfl)).1, (Proofs.Wrappers.compute_spec m k v g _ (Or.inr rfl)).2.1⟩,
+   ⟨(Proofs.Wrappers.loadAndDelete_spec m k v g _ (Or.inr rfl)).1, (Proofs.Wrappers.loadAndDelete_spec m k v g _ (Or.inr rfl)).2.1⟩,
+   (Proofs.Wrappers.delete_spec m k v g _ (Or.inr rfl)).1⟩
 
 end Props.C04
